@@ -473,7 +473,9 @@ type transientCall struct {
 
 func (e *Env) transientHistories(drv, label string, n int, judge func(c *transientCall)) (calls int) {
 	var mu sync.Mutex
-	kinds := []string{"custom", "eof", "ueof", "temporary", "timeout", "eintr", "eagain", "deadline"}
+	// "panic": the caller-supplied source panics inside Read and the caller recovers; the calls
+	// after it must work like after any other failure
+	kinds := []string{"custom", "eof", "ueof", "temporary", "timeout", "eintr", "eagain", "deadline", "panic"}
 	parallel(n, e.Workers, func(h int) {
 		r := rng.New(e.Seed, label+"-transient-"+itoa(h))
 		lang := r.Intn(ref.NLang)
@@ -514,7 +516,22 @@ func (e *Env) transientHistories(drv, label string, n int, judge func(c *transie
 		add(plan.Op{Fn: "srcunset"})
 		res, died := e.RunProc(drv, ops, nil, 0)
 		if died != "" || len(res) != len(ops) {
-			return // crashes are C14's business
+			// a call that never returns after the source had failed (or panicked) earlier in the
+			// process depends on that earlier failure; other deaths are C14's business
+			if k := len(res); k < len(ops) && ops[k].Fn == "new" && (strings.Contains(died, "never returns") || strings.Contains(died, "all goroutines are asleep")) {
+				sawFailure := false
+				for i := 0; i < k; i++ {
+					for _, ev := range res[i].Reads {
+						if ev.E != "" {
+							sawFailure = true
+						}
+					}
+				}
+				if sawFailure {
+					e.Violate(&Violation{What: fmt.Sprintf("%s: after a call during which the source had failed, NewMnemonic(%d) on the same source never returns: %s", label, ops[k].N, oneLine(died, 300)), Ops: ops[:k+1], Detail: historyNote})
+				}
+			}
+			return
 		}
 		var stream []byte // delivered and not yet attributed
 		for i := range ops {
